@@ -380,6 +380,20 @@ class HWorld:
         exc = ClientAbortBase("client abort") if cmd.get("exc") == "B" else ClientAbort("client abort")
         outcome = None
         self.pre_abort(h, cmd)
+        if cmd.get("exc") == "G":
+            # the coroutine that holds the block open is abandoned: closed (or collected)
+            # while suspended inside it, so the block is left by GeneratorExit
+            exc = None
+            try:
+                g.close()
+                outcome = "closed"
+            except BaseException as e:
+                outcome = "close-raised:" + type(e).__name__
+            self.cut.append([h.bstart, self.idx])
+            self._end_batch(h)
+            self.st.fault("batch-abandoned-generator-exit")
+            self.after_abort(h, cmd, outcome, exc=GeneratorExit())
+            return outcome
         try:
             g.send(("raise", exc))
         except StopIteration:
